@@ -562,6 +562,58 @@ pub fn run(ctx: &Ctx) {
             }
         }
     }
+    // keyrings with a DAMAGED UNRELATED entry (valid text, wrong checksum) at every position relative to the sender: the
+    // tool may refuse such a keyring before producing anything, or ignore the entry; what it may not do is report
+    // failure after the complete plaintext was delivered, or lose the sender's name although the sender is listed
+    {
+        let dir = w.wd.path.join("damaged");
+        let _ = std::fs::create_dir_all(&dir);
+        let mut blob = crate::util::unb64(&refspec::encode_pk(&refspec::pubkey_of(&rng.arr32()))).unwrap();
+        blob[34] ^= 0x21;
+        let dave = format!("[Key]\nName = dave\nPublicKey = {}\n", crate::util::b64(&blob));
+        let pt = &pts[1].1;
+        let f = refspec::encode_key_file(&a.sk, &a.pk, &b.pk, &rng.arr32(), &rng.arr32(), pt, &[pt.len()]).unwrap();
+        std::fs::write(dir.join("f.ktl"), &f).unwrap();
+        let layouts: Vec<(&str, String, bool)> = vec![
+            ("damaged entry first", format!("{}\n{}\n{}", dave, a.entry(false), b.entry(true)), true),
+            ("damaged entry between sender and recipient", format!("{}\n{}\n{}", a.entry(false), dave, b.entry(true)), true),
+            ("damaged entry between recipient and sender", format!("{}\n{}\n{}", b.entry(true), dave, a.entry(false)), true),
+            ("damaged entry last", format!("{}\n{}\n{}", a.entry(false), b.entry(true), dave), true),
+            ("damaged entry first, sender not listed", format!("{}\n{}", dave, b.entry(true)), false),
+        ];
+        for (what, kr, listed) in &layouts {
+            std::fs::write(dir.join("kr.txt"), kr).unwrap();
+            for to_file in [false, true] {
+                let _ = std::fs::remove_file(dir.join("out.bin"));
+                let mut args = vec!["decrypt", "f.ktl", "-t", b.name.as_str(), "-k", "kr.txt", "--env-pass"];
+                if to_file {
+                    args.extend_from_slice(&["-o", "out.bin"]);
+                }
+                let o = Cmd::new(&dir, &args).pass(&b.password).run();
+                ctx.eval();
+                let delivered: Vec<u8> = if to_file { std::fs::read(dir.join("out.bin")).unwrap_or_default() } else { o.stdout.clone() };
+                let err = o.stderr_s();
+                let named: Option<String> = err.lines().find_map(|l| l.split("File from: ").nth(1)).map(|x| x.trim().to_string());
+                let case = || json!({"keyring": what, "output": if to_file { "-o FILE" } else { "stdout" }, "exit": o.exit.describe(), "stderr": err, "delivered_len": delivered.len(), "plaintext_len": pt.len()});
+                match &o.exit {
+                    Exit::Timeout => ctx.inconclusive("C12: timeout"),
+                    Exit::Code(1) if o.has_error_line() && delivered.is_empty() => {
+                        ctx.seen("keyring with a damaged unrelated entry refused before anything was delivered");
+                        ctx.distinct(&format!("damaged|{}|{}|refused", what, to_file));
+                    }
+                    Exit::Code(1) => ctx.violation("C12:decrypt:exit-1-although-the-complete-plaintext-was-delivered:damaged-unrelated-keyring-entry", case()),
+                    Exit::Code(0) if delivered != *pt => ctx.violation("C12:decrypt:exit-0-with-missing-or-incorrect-output:damaged-unrelated-keyring-entry", case()),
+                    Exit::Code(0) if *listed && named.as_deref() != Some(a.name.as_str()) => ctx.violation("C12:decrypt:sender-not-named-by-its-keyring-entry:damaged-unrelated-keyring-entry", case()),
+                    Exit::Code(0) if !*listed && (named.is_some() || !err.contains(&a.encoded_pk)) => ctx.violation("C12:decrypt:unlisted-sender-not-reported-as-unknown-with-its-encoding:damaged-unrelated-keyring-entry", case()),
+                    Exit::Code(0) => {
+                        ctx.seen("keyring with a damaged unrelated entry: decryption truthful, sender named by its own entry");
+                        ctx.distinct(&format!("damaged|{}|{}", what, to_file));
+                    }
+                    other => ctx.violation(&format!("C12:decrypt:damaged-unrelated-keyring-entry:{}", other.describe().replace(' ', "-")), case()),
+                }
+            }
+        }
+    }
     // an explicit -k must not be overridden by a stale KESTREL_KEYRING
     {
         let dir = w.wd.path.join("both");
